@@ -34,6 +34,16 @@ Definition is_lin_op (o : op) : bool :=
   | _ => false
   end.
 
+(* the fragment of the correctness theorem: elementwise arithmetic and share-wise lifted unary
+   operations over arrays/scalars *)
+Definition thm_op (o : op) : bool :=
+  match o with
+  | OInput t | OZeros t | OOnes t | OConstant t _ => is_leaf t
+  | OAdd | OSubtract | OMultiply => true
+  | _ => is_lin_op o
+  end.
+Definition thm_frag (nodes : list node) : bool := forallb (fun nd => thm_op (n_op nd)) nodes.
+
 Section DeepEval.
   Variable R : Type.
   Variables (r0 : R) (radd rmul rsub : R -> R -> R).
@@ -138,6 +148,26 @@ Section DeepEval.
   Definition deval_from (nodes : list node) (st : option dstate) : option dstate := fold_left dstep nodes st.
   Definition deval (nodes : list node) (ins : list rval) : option (list rval) :=
     match deval_from nodes (Some ([], ins)) with Some (env, _) => Some env | None => None end.
+
+  (* ---------- vocabulary of the correctness statement ---------- *)
+  Definition T3 (a b c : R) : rval := RTup R [RLeaf R a; RLeaf R b; RLeaf R c].
+
+  (* source value [vs] vs. compiled value [vc] of a node: equal when the node is public, a triple of
+     additive shares of it when the node is private *)
+  Definition rel (p : bool) (vs vc : rval) : Prop :=
+    if p then exists x a b c, vs = RLeaf R x /\ vc = T3 a b c /\ radd (radd a b) c = x else vc = vs.
+
+  (* inputs of the compiled graph for an is_input_private vector: a public input is passed as it
+     is, a private input as ANY three shares adding up to it *)
+  Inductive inrel : list bool -> list rval -> list rval -> Prop :=
+  | inrel_nil fl : inrel fl [] []
+  | inrel_pub fl v s c : inrel fl s c -> inrel (false :: fl) (v :: s) (v :: c)
+  | inrel_priv fl x a b c0 s c : radd (radd a b) c0 = x -> inrel fl s c ->
+                                 inrel (true :: fl) (RLeaf R x :: s) (T3 a b c0 :: c).
+
+  (* the first input of the compiled graph when use_prf_for_mul: a triple of PRF keys (any values) *)
+  Definition keys_input (use_mul : bool) (kv0 kv1 kv2 : rval) : list rval :=
+    if use_mul then [RTup R [kv0; kv1; kv2]] else [].
 
   (* reconstruction of a value kept as three additive shares *)
   Definition reveal3 (v : rval) : option R :=
